@@ -707,3 +707,54 @@ def rule_template_single_pass(ctx, rep, rid: str) -> None:
         for c in dollar_passes(f.own_nodes()):
             rep.bad(rid, f"{f.qual}:{short(c, 40)}", f"{f.qual} expands a template pattern with a str.replace pass ({short(c, 50)}): text substituted by an earlier pass is read again as template, and patterns are handled in the order of the passes instead of left to right", f"{f.module.rel}:{c.lineno}")
     rep.ok(rid, "template-expansion", {"functions_examined": n})
+
+
+# ---- signed number text ----------------------------------------------------------------------------------
+def _pattern_text(ctx, f: Func, name: str) -> Optional[str]:
+    for n in f.module.tree.body:
+        if isinstance(n, ast.Assign) and any(isinstance(t, ast.Name) and t.id == name for t in n.targets) and isinstance(n.value, ast.Call) and norm(n.value.func) in ("re.compile",) and n.value.args:
+            parts = [x.value for x in ast.walk(n.value.args[0]) if isinstance(x, ast.Constant) and isinstance(x.value, str)]
+            return "".join(parts)
+    return None
+
+
+def rule_signed_number_text(ctx, rep, rid: str) -> None:
+    """Two facts about the text of a Number.  (1) A host int has no negative zero: where text that may carry a sign is
+    converted with int(), "-0" needs a result -0.0 of its own.  (2) Only the decimal literal may carry a sign: the
+    pattern for 0x / 0o / 0b literals is matched against the text as it was trimmed, not against text from which a
+    sign was cut off ("-0x10" is NaN)."""
+    rep.rule(rid, "where string-to-number conversion hands text that its grammar allows to be signed to int(), the function has a negative-zero result for a zero with a minus sign; and a pattern for radix literals (0x/0o/0b) is never matched against text from which a leading sign was removed", floor=2)
+    n = 0
+    for f in ctx.tree.funcs:
+        if isinstance(f.node, ast.Lambda) or f.module.name not in ("values", "context"):
+            continue
+        matches = [c for c in f.own_nodes() if isinstance(c, ast.Call) and isinstance(c.func, ast.Attribute) and c.func.attr in ("match", "fullmatch") and isinstance(c.func.value, ast.Name) and c.args and isinstance(c.args[0], ast.Name)]
+        signed_text = set()
+        for c in matches:
+            pt = _pattern_text(ctx, f, c.func.value.id)
+            if pt is None:
+                continue
+            v = c.args[0].id
+            if "[+-]" in pt or "[-+]" in pt or pt.startswith("-?"):
+                signed_text.add(v)
+            if "[xX]" in pt or "0x" in pt.lower():
+                # (2) the matched text must not have lost a sign
+                n += 1
+                key = f"{f.qual}:{c.func.value.id}.match({v})"
+                cut = [a for a in f.own_nodes() if isinstance(a, ast.Assign) and any(isinstance(t, ast.Name) and t.id == v for t in a.targets) and isinstance(a.value, ast.Subscript) and norm(a.value.value) == v and isinstance(a.value.slice, ast.Slice) and a.lineno < c.lineno and any(("+-" in norm(t) or "-+" in norm(t) or "'-'" in norm(t) or '"-"' in norm(t)) for t, _ in guards_of(a, f.node))]
+                if cut:
+                    rep.bad(rid, key, f"{f.qual} matches the radix-literal pattern against `{v}` after cutting a leading sign off it (line {cut[0].lineno}): only decimal literals may be signed, so '-0x10' and '+0b11' must be NaN but are accepted", f"{f.module.rel}:{c.lineno}")
+                else:
+                    rep.ok(rid, key)
+        # (1) int() of possibly signed text
+        for c in f.own_nodes():
+            if isinstance(c, ast.Call) and isinstance(c.func, ast.Name) and c.func.id == "int" and len(c.args) == 1 and isinstance(c.args[0], ast.Name) and (c.args[0].id in signed_text or (f.name in ("integer_token",) )):
+                n += 1
+                key = f"{f.qual}:int({c.args[0].id}):negative-zero"
+                has = any(isinstance(x, ast.UnaryOp) and isinstance(x.op, ast.USub) and isinstance(x.operand, ast.Constant) and x.operand.value == 0.0 and isinstance(x.operand.value, float) for x in f.own_nodes())
+                if has:
+                    rep.ok(rid, key)
+                else:
+                    rep.bad(rid, key, f"{f.qual} converts text that may start with a minus sign with int({c.args[0].id}) and has no result -0.0: '-0' becomes +0 (a host int has no negative zero), while '-0.0' keeps its sign", f"{f.module.rel}:{c.lineno}")
+    if n < 2:
+        raise AnalysisError(f"{rid}: string-to-number conversion not recognised ({n} sites)")
